@@ -780,7 +780,9 @@ func (d *headerParamDecoder) DecodePrimitive(param string, sm *openapi3.Serializ
 		return nil, ok, nil
 	}
 
-	val, err := parsePrimitive(raw[0], schema)
+	// several field lines of one name are one comma separated list (RFC 9110, 5.3), which is then
+	// what has to be the text of the declared type
+	val, err := parsePrimitive(strings.Join(raw, ","), schema)
 	return val, ok, err
 }
 
